@@ -19,6 +19,7 @@ package ds
 //@   modifies s.vals, s.vals[*]
 //@   ensures len(s.vals) == old(len(s.vals)) + 1
 //@   ensures s.vals[len(s.vals)-1] == v
+//@   ensures s.vals.$arr == old(s.vals.$arr) || fresh(s.vals)
 //@   ensures forall k :: 0 <= k && k < old(len(s.vals)) ==> s.vals[k] == old(s.vals[k])
 
 //@ func (*Stack[T]).Peek()
